@@ -689,6 +689,12 @@ func buildSelectOnlyResult(p *SelectPlan, rs *mysql.Result) error {
 		return nil
 	}
 
+	// no row at all (e.g. LIMIT 0 on every shard): nothing to merge, and no nil row
+	// must be handed to the following steps
+	if len(r.Values) == 0 {
+		return nil
+	}
+
 	// 存在聚合函数, 需要改写聚合列的值, 然后返回 (应该只有一行记录)
 	isSet := false
 	var currRet ResultRow
